@@ -1136,10 +1136,22 @@ def campaign(ctx) -> None:
     cases = list(corpus)
     cases += [gen_case(ctx.rng, f"c{i}") for i in range(n_cli)]
     cases += [gen_case(ctx.rng, f"dn{i}", "dirnode") for i in range(n_dn)]
-    obs = run_workers(cases)
+    # file names that are not valid UTF-8, tracked / staged / untracked (byte-level oracle, real subprocess): same worker pool
+    bcases = [BYTES_WITNESS] + [gen_bytes_case(ctx.rng, f"b{i}") for i in range(ctx.scale(8, 150))]
+    step = max(1, len(cases) // len(bcases))
+    mixed = []
+    for i, c in enumerate(cases):          # spread the (slow) subprocess cases over the worker chunks
+        if i % step == 0 and bcases:
+            mixed.append(bcases.pop())
+        mixed.append(c)
+    mixed += bcases
+    obs = run_workers(mixed)
     pending: list = []
     before = len(ctx.violations)
-    for c in cases:
+    for c in mixed:
+        if c["stream"] == "bytes":
+            judge_bytes(ctx, c, obs[c["id"]])
+            continue
         judge(ctx, c, obs[c["id"]], pending)
         if c["id"] == "corpus-F9":
             hit = [v for v in ctx.violations[before:] if v["finding"] == "F9"]
@@ -1147,16 +1159,13 @@ def campaign(ctx) -> None:
         if c["id"] == "corpus-F16":
             ctx.extra["selftest_F16_witness_detected"] = any(v["finding"] == "F16" for v in ctx.violations)
     compare_model(ctx, pending)
-    total = max(1, len(cases))
+    total = max(1, len(mixed))
     fresh_now = [v for v in ctx.violations if not v["finding"]]
     if not fresh_now and (ctx.dist["unresolved-output"] + ctx.dist["worker-error"]) * 10 > total:
         raise common.InfraError(f"too many uninterpretable runs: {dict(ctx.dist)} {ctx.extra.get('worker_errors', [])[:2]}")
     if not fresh_now and ctx.dist["nonzero-exit"] * 5 > total:
         raise common.InfraError(f"too many failing clean runs ({ctx.dist['nonzero-exit']}/{total}): "
                                 f"{ctx.extra.get('nonzero_exit_samples')}")
-
-    # 1b. file names that are not valid UTF-8, tracked / staged / untracked (byte-level oracle, real subprocess)
-    bytes_campaign(ctx, ctx.scale(10, 150))
 
     # 2. exhaustive small scope on the node class
     exh_campaign(ctx, max_n=3 if not ctx.thorough else 4, sample_n=4 if not ctx.thorough else 5,
